@@ -1157,27 +1157,10 @@ def r4_15(rep):
     under `--no-convert-floats` makes `scale(1.25, 4)` return 0.0 (seeded change).  Same rule instance as R2.1."""
     import c02
 
-    class _Widths:
-        """R2.1 minus its signedness section: a sign recorded wrongly changes how a VALUE is read (C02 / C05), not whether the
-        same bits arrive in the callee."""
-        def __init__(self, rep):
-            self._rep = rep
-
-        def __getattr__(self, name):
-            return getattr(self._rep, name)
-
-        def check(self, cond, key, detail="", loc=""):
-            return bool(cond) if key.startswith("is_signed:") else self._rep.check(cond, key, detail, loc)
-
-        def bad(self, key, detail, loc=""):
-            if not key.startswith("is_signed:"):
-                self._rep.bad(key, detail, loc)
-
-        def ok(self, key, detail="", loc=""):
-            if not key.startswith("is_signed:"):
-                self._rep.ok(key, detail, loc)
-
-    c02.r2_1(_Widths(rep))
+    # R2.1 minus its signedness section: a sign recorded wrongly changes how a VALUE is read (C02 / C05), not whether the same
+    # bits arrive in the callee
+    from engine import KeyFilter
+    c02.r2_1(KeyFilter(rep, lambda k: not k.startswith("is_signed:")))
 
 
 @RULES.rule("R4.16", "a pointer whose spelled pointee lost the `const` of its canonical pointee points to the canonical pointee, whatever the pointee is", floor=8)
